@@ -33,7 +33,14 @@ def make_batch(spec):
     # float32 copies, the samples carry the configured dtype
     ldt = {"float32": torch.float32, "int64": torch.int64, "float64": torch.float64}[spec.get("label_dtype", "float32")]
     # images may be float64 (numpy's default) - the reference keeps float32 copies of the same values
-    xdt = {"float32": torch.float32, "float64": torch.float64}[spec.get("x_dtype", "float32")]
+    xdt = {"float32": torch.float32, "float64": torch.float64, "uint8": torch.uint8}[spec.get("x_dtype", "float32")]
+    if xdt == torch.uint8:
+        # raw 8-bit images: whole-number pixel values (the reference holds the same numbers as float32)
+        xs = [(x * 30).floor() for x in xs]  # at most (8 + 0.25) * 30 < 256
+    if spec.get("nonfinite") and spec["mixup_p"] == 0.0 and spec.get("x_dtype") != "uint8":
+        # an invalid-pixel marker (inf) in every image; only for pure cutmix - a paste copies pixels, it does no arithmetic on them
+        for k in range(min(B, H * W)):  # a different pixel in every image (equal pixels of two images cannot be told apart after a paste)
+            xs[k][:, k // W, k % W] = float("inf")
     samples = []
     for k in range(B):
         items = []
@@ -143,7 +150,14 @@ def check(spec):
     xs, ys, samples = make_batch(spec)
     if kw["shuffle_mode"] == "flip" and B % 2 == 1 and B > 1:
         raise Refused("flip needs an even batch")
-    batch, ctx = coll(samples)
+    if spec.get("x_dtype") == "uint8":
+        try:
+            batch, ctx = coll(samples)
+        except Exception as e:
+            # integer images cannot be blended in place: refused (if a version answers, the answer is judged like any other)
+            raise Refused("integer images refused: " + type(e).__name__)
+    else:
+        batch, ctx = coll(samples)
     if len(spec["mode"]) == 1 and not torch.is_tensor(batch):
         raise Violation("layout-changed:single-item-mode", f"single-item mode {mode!r} returned {type(batch).__name__} of length "
                                                           f"{len(batch) if hasattr(batch, '__len__') else '?'} instead of the bare batch")
@@ -184,6 +198,10 @@ def check(spec):
             # image explanation with weight wi and partner p
             mix = wi * xs[i].double() + (1 - wi) * xs[p].double()
             is_mixup = bool((X[i].double() - mix).abs().max() <= 2e-4)
+            if spec.get("nonfinite") and spec["mixup_p"] == 0.0 and spec.get("x_dtype") != "uint8":
+                # images with inf markers (inf - inf and 0 * inf are nan): a term with coefficient zero vanishes, equal infinities are equal
+                exp_ = xs[i].double() if wi >= 1 - 1e-12 else xs[p].double() if wi <= 1e-12 else mix
+                is_mixup = bool(((X[i].double() == exp_) | ((X[i].double() - exp_).abs() <= 2e-4)).all())
             area = _box_decode(X[i], xs[i], xs[p])
             is_cut = area is not None and abs((1 - area / (H * W)) - wi) <= 1e-6
             if not (is_mixup or is_cut):
@@ -288,7 +306,8 @@ def spec_s(draw, mae=False):
             "seed": draw(st.integers(0, 2 ** 32 - 1)), "mae": mae,
             "label_dtype": draw(st.sampled_from(["float32", "float32", "int64", "float64"])),
             "user_shuffle": (not mae) and draw(st.integers(0, 4)) == 0,
-            "x_dtype": draw(st.sampled_from(["float32", "float32", "float64"])),
+            "x_dtype": draw(st.sampled_from(["float32", "float32", "float64"] + ([] if mae else ["uint8"]))),
+            "nonfinite": (not mae) and draw(st.booleans()),
             "layout": None if mae else draw(st.sampled_from([None, None, "permuted"])),
             "reassign_shuffle": (not mae) and draw(st.integers(0, 3)) == 0}
 
